@@ -854,6 +854,9 @@ PAIR_RULES = [
     ("integ", "safe", lambda a, b: (a in SAFE_INTEGS) != (b != "na"), "safe_mode exists only for WHFast/SABA/EOS/MERCURIUS"),
     ("integ", "ku", lambda a, b: b == 1 and a not in KU_INTEGS, "keep_unsynchronized exists only for WHFast/SABA"),
     ("safe", "ku", lambda a, b: b == 1 and a != 0, "keep_unsynchronized=1 is rejected unless safe_mode=0"),
+    ("ku", "edit", lambda a, b: a == 1 and b in ("mass", "remove_add", "recalc_flag"), "keep_unsynchronized=1 means by documentation that edits of the particles between steps are NOT taken into account; structural changes in that mode are undefined"),
+    ("ku", "event", lambda a, b: a == 1 and b in ("removal", "merge"), "as above"),
+    ("ku", "post", lambda a, b: a == 1 and b in ("add", "remove", "mass", "switch_reset"), "as above"),
     ("integ", "var", lambda a, b: b != "none" and b not in VAR_INTEGS.get(a, ()), "variational particles / MEGNO rejected or unsupported by this integrator"),
     ("integ", "modules", lambda a, b: b in BOX_MODULES and a not in ("leapfrog", "ias15"), "box systems have no dominant central body (Wisdom-Holman type / hybrid integrators need one)"),
     ("integ", "modules", lambda a, b: b in ("collide_direct_merge", "collide_line_callable") and a in ("janus", "saba", "eos"), "collisions are not supported / not defined for JANUS, SABA, EOS"),
